@@ -133,6 +133,12 @@ def _build_set(spec):
         # captions crowded into the first second (less time between them than their transmission takes)
         spec = spec[1:]
         t, step = 200000, 400000
+    shifted = None
+    if spec and isinstance(spec[0], str) and spec[0].startswith("@shift"):
+        # the set is re-timed (adjust_caption_timing) before it is written: by so much that the first caption would begin
+        # before the start of the programme ("@shift-") or just not ("@shift0": it then begins exactly at zero)
+        shifted = -2000000 if spec[0] == "@shift-" else -1000000
+        spec = spec[1:]
     for lines in spec:
         nodes = []
         for i, ln in enumerate(lines):
@@ -141,7 +147,10 @@ def _build_set(spec):
             nodes.append(CaptionNode.create_text(ln))
         caps.append(Caption(t, t + (1500000 if step > 1000000 else 300000), nodes))
         t += step
-    return CaptionSet({"en-US": caps})
+    cs = CaptionSet({"en-US": caps})
+    if shifted is not None:
+        cs.adjust_caption_timing(offset=shifted)
+    return cs
 
 
 SCC_SOURCE = "Scenarist_SCC V1.0\n\n00:00:01:02\t94ae 94ae 9420 9420 9470 9470 c8e5 ecec ef80 942f 942f\n\n00:00:03:11\t942c 942c\n\n00:00:04:07\t94ae 9420 1370 c1c2 94d0 c3c4 942f\n\n00:00:06:00\t942c\n"
@@ -210,6 +219,13 @@ def writer_specs(tier):
         specs.append(["@short", [t], ["Bang!"], ["1984"]])
         specs.append([[t, " ", "42"]])       # a line of one blank between two lines
         specs.append([["Total:", "", t]])    # an empty text node between two breaks
+    for t in TEXT_TOKENS[:3]:
+        for pre in ("@shift-", "@shift0"):
+            specs.append([pre, [t], ["later", "two rows"], ["last"]])
+    # captions of one to nine rows
+    for n in range(3, 10):
+        specs.append([[f"row {k:02d} of a tall caption" for k in range(n)]])
+        specs.append(["@0", ["Hi!"], [f"row {k} is shorter" for k in range(n)]])
     pairs = TEXT_TOKENS if tier == "thorough" else TEXT_TOKENS[:9]
     for a in pairs:
         for b in pairs:
